@@ -605,6 +605,12 @@ impl ValueTable {
 				break
 			}
 			part += 1;
+			if part as u64 > self.filled.load(Ordering::Relaxed) {
+				return Err(crate::error::Error::Corruption(format!(
+					"Value chain in table {} has more parts than the table has entries: cycle",
+					self.id
+				)))
+			}
 			index = next;
 		}
 		Ok((rc, compressed))
@@ -1252,6 +1258,12 @@ impl ValueTable {
 			buf.skip_size();
 			next = buf.read_next();
 			len += 1;
+			if len > written {
+				return Err(crate::error::Error::Corruption(format!(
+					"Free list of table {} is longer than the table ({} entries): cycle",
+					self.id, written
+				)))
+			}
 		}
 		Ok(len)
 	}
